@@ -21,7 +21,7 @@ from harness import fw
 from harness.fw import Err, cstr, clist, cpair, copt, cbool
 
 IMPORTS = ["Webob.Lib.PyStr", "Webob.Lib.C13_Utf8", "Webob.Gen.C13_tables", "Webob.Model.C13_urlsplit",
-           "Webob.Model.C13_urlpath"]
+           "Webob.Model.C13_urlpath", "Webob.Model.C13_urljoin", "Webob.Spec.C13_rfc3986"]
 
 
 # ============================================================================ references (independent of webob)
@@ -88,16 +88,20 @@ def ref_remove_dots(path):
     return "".join(out)
 
 
-def ref_resolve(base, ref):
-    """RFC 3986 section 5.2.2 (non-strict: a reference scheme equal to the base scheme is ignored) + 5.3."""
+def ref_resolve(base, ref, strict=False):
+    """RFC 3986 section 5.2.2 (non-strict: a reference scheme equal to the base scheme is ignored) + 5.3.
+    strict=True: appendix B as it stands (any text before the first ':' that has no / ? # is a scheme) and the
+    strict 5.2.2 — the reading the Gallina specification Spec/C13_rfc3986.v transcribes."""
     bs, ba, bp, bq, _ = ref_split(base)
     rs, ra, rp, rq, rf = ref_split(ref)
-    if rs is not None and not RX_SCHEME.match(rs):
+    if strict:
+        pass
+    elif rs is not None and not RX_SCHEME.match(rs):
         # not a scheme: the colon belongs to the first path segment
         rs = None
         m = re.match(r"^([^?#]*)(\?([^#]*))?(#(.*))?$", ref, re.S)
         ra, rp, rq, rf = None, m.group(1), m.group(3), m.group(5)
-    if rs is not None and rs.lower() == bs.lower():
+    if not strict and rs is not None and bs is not None and rs.lower() == bs.lower():
         rs = None
     if rs is not None:
         ts, ta, tp, tq = rs, ra, ref_remove_dots(rp), rq
@@ -446,6 +450,8 @@ def classify_rel(base, ref):
     rs, ra, rp, rq, rf = ref_split(ref)
     if ra == "" and not (rs is not None and RX_SCHEME.match(rs)):
         return "relative_url:empty-authority-ignored"
+    if rs is None and ra is None and re.match(r"^\.\.?;", (rp or "").rsplit("/", 1)[-1]):
+        return "relative_url:dot-segment-with-params"
     if (rs is not None and RX_SCHEME.match(rs) and rs.lower() != ref_split(base)[0]) or ra is not None:
         return "relative_url:dot-segments-kept-in-absolute-reference"
     if rq == "" or rf == "" or re.search(r";(/|$)", rp or "") or re.search(r";(/|$)", bp or ""):
@@ -507,7 +513,8 @@ POP_SHAPES = ["pos", "pos", "kw", "compiled", "none"]
 POP_PATTERNS = [None, None, None, "a", ".", r"\w+$", "^$", "[^/]+", "\xe9", "x", r"\.\.?$", "", "%"]
 REL_SEGS = [".", "..", "g", "%2e", "x=1", "a;p", "...", "g.", ".g", ";x", "\xe9"]
 REL_ODD = ["", "?", "#", "?y", "#s", "g?", "g#", "g;", "//g", "//g/a/../b", "http:g", "http://o/a/./b", "ftp://o/a/../b",
-           "g//h", "//", "a:b", "./a:b", "/", "/.", "/..", "../../../g", "g/", "./", "../", ";", "?y#s", "mailto:x@y"]
+           "g//h", "//", "a:b", "./a:b", "/", "/.", "/..", "../../../g", "g/", "./", "../", ";", "?y#s", "mailto:x@y",
+           ".;x", "g/..;p", "/.;x?y", "..;x#s", "a/.;", "g;x=1/../y", "g/a;p"]
 
 
 def gen_host(rng, v6_ratio=0.35):
@@ -572,6 +579,10 @@ def exhaustive_paths(maxlen):
 
 
 # ============================================================================ gen: tables read from the source
+def _cstrlist(xs):
+    return " :: ".join(["(H \"%s\"%%string)" % x.encode("ascii").hex() if x else "(@nil N)" for x in xs] + ["nil"])
+
+
 def gen(ctx):
     """coq/Gen/C13_tables.v from the live modules; returns the list of problems (fail-closed)."""
     problems = []
@@ -615,6 +626,10 @@ def gen(ctx):
            "From Coq Require Import NArith List String.", "Require Import Webob.Lib.Val.",
            "Definition PATH_SAFE : str := H \"%s\"%%string." % safe.hex(),
            "Definition ALWAYS_SAFE : str := H \"%s\"%%string." % always.hex(),
+           "(* urllib.parse.uses_relative / uses_netloc / uses_params of the running CPython (urljoin, urlparse) *)",
+           "Definition USES_RELATIVE : list str := (%s)%%list." % _cstrlist(up.uses_relative),
+           "Definition USES_NETLOC : list str := (%s)%%list." % _cstrlist(up.uses_netloc),
+           "Definition USES_PARAMS : list str := (%s)%%list." % _cstrlist(up.uses_params),
            "(* non-ASCII code points matched by the class [a-z] of SCHEME_RE under its live flags *)",
            "Definition SCHEME_ALPHA_EXTRA : str := (%s)%%list." % " :: ".join(["%d%%N" % c for c in extra] + ["nil"])]
     fw.write_if_changed(os.path.join(fw.COQ, "Gen", "C13_tables.v"), "\n".join(out) + "\n")
@@ -799,8 +814,10 @@ def _report_bad(ctx, name, bad, cases, oracle):
 
 
 CLOSURE = ["Lib/Val.v", "Lib/PyStr.v", "Lib/C13_Utf8.v", "Gen/C13_tables.v", "Model/C13_urlsplit.v",
-           "Model/C13_urlpath.v", "Spec/C13_spec.v", "Proofs/C13_utf8.v", "Proofs/C13_quote.v", "Proofs/C13_host.v",
-           "Proofs/C13_blank.v", "Proofs/C13_pop.v", "Proofs/C13_refuted.v", "Props/C13.v"]
+           "Model/C13_urlpath.v", "Model/C13_urljoin.v", "Spec/C13_spec.v", "Spec/C13_rfc3986.v",
+           "Spec/C13_refdomain.v", "Proofs/C13_utf8.v", "Proofs/C13_quote.v", "Proofs/C13_host.v",
+           "Proofs/C13_blank.v", "Proofs/C13_pop.v", "Proofs/C13_refuted.v", "Proofs/C13_segs.v",
+           "Proofs/C13_relurl.v", "Proofs/C13_relurl_refuted.v", "Props/C13.v"]
 
 
 def _fallback_build(ctx):
@@ -1220,6 +1237,103 @@ def outside_cases(ctx, rng):
 
 
 
+# ============================================================================ urljoin / relative_url / RFC spec ties
+REL_SEGS2 = REL_SEGS + [".;x", "..;x", ";", "a;", "a;p;q", "a:b", "", "%2E%2E", "~"]
+JOIN_BASES = ["http://h", "http://h/", "http://h/a", "http://h/a/b;p", "http://h/a/b/", "http://h/a;p/b", "http://h//a//b",
+              "https://[::1]:8443/s/p%20q", "http://h/a/..", "http://h/.;p", "http://h/a/;p", "ws://h/a/b", "foo://h/a/b",
+              "mailto:x@y", "/a/b", "a/b", "//h/a", "http:", "http:/a", "http:a/b", "", "http://h/a?q=1", "http://h/a#f",
+              "http://h/a;", "file:///a/b", "HTTP://h/a"]
+
+
+def bracket_oks(*texts):
+    """The bracket contents occurring in the texts that urllib's _check_bracketed_host accepts."""
+    import urllib.parse as up
+    oks = []
+    for t in texts:
+        u = t.lstrip(up._WHATWG_C0_CONTROL_OR_SPACE)
+        for b in up._UNSAFE_URL_BYTES_TO_REMOVE:
+            u = u.replace(b, "")
+        for i, ch in enumerate(u):
+            if ch == "[":
+                j = u.find("]", i)
+                inner = u[i + 1:j] if j >= 0 else None
+                if inner is not None:
+                    try:
+                        up._check_bracketed_host(inner)
+                        if inner not in oks:
+                            oks.append(inner)
+                    except ValueError:
+                        pass
+    return oks
+
+
+def gen_ref(rng):
+    x = rng.random()
+    if x < 0.2:
+        return rng.choice(REL_ODD)
+    if x < 0.3:
+        return gen_url(rng, 5)
+    k = rng.randrange(0, 4)
+    p = rng.choice(["", "", "/", "//"]) + "/".join(rng.choice(REL_SEGS2) for _ in range(k))
+    if k and rng.random() < 0.4:
+        p += "/"
+    return p + rng.choice(["", "", "?y", "?y=/../z", "?"]) + rng.choice(["", "", "#s", "#s/../t", "#"])
+
+
+def model_usable(*texts):
+    """non-ASCII text that can reach a netloc is outside the urlsplit model (_checknetloc)"""
+    return all(t.isascii() or "//" not in t for t in texts)
+
+
+def corr_urljoin(ctx, rng):
+    from urllib.parse import urljoin
+    cases = []
+    n = ctx.scale(700, 7000)
+    while len(cases) < n:
+        base = rng.choice(JOIN_BASES) if rng.random() < 0.6 else gen_url_wellformed(rng)
+        ref = gen_ref(rng)
+        if not model_usable(base, ref) or not base.isascii():
+            continue
+        oks = bracket_oks(base, ref)
+        got = catchv(lambda: urljoin(base, ref))
+        cases.append(("(%s, (%s, %s))" % (clist(cstr(o) for o in oks), cstr(base), cstr(ref)), got,
+                      {"kind": "urljoin", "base": base, "ref": ref}))
+    bad = ctx.corr("urljoin", IMPORTS, "(fun c => obs_join (fst c) (snd c))", cases, in_type="(list str * (str * str))")
+    _report_bad(ctx, "urljoin", bad, cases, None)
+    # relative_url on environs
+    cases = []
+    n = ctx.scale(500, 5000)
+    while len(cases) < n:
+        env = gen_env_for_corr(rng)
+        ref = gen_ref(rng)
+        to_app = rng.random() < 0.35
+        if not model_usable(ref) or not all(isinstance(v, str) and v.isascii() for k, v in env.items()
+                                             if k in ("HTTP_HOST", "SERVER_NAME", "SERVER_PORT", "wsgi.url_scheme")):
+            continue
+        from webob import Request
+        r = Request(dict(env))
+        got = catchv(lambda: r.relative_url(ref, to_application=to_app))
+        oks = bracket_oks(env.get("HTTP_HOST", ""), env.get("SERVER_NAME", ""), ref)
+        cases.append(("(%s, (%s, %s, %s))" % (clist(cstr(o) for o in oks), cenv(env), cstr(ref), cbool(to_app)), got,
+                      {"kind": "relative_url_corr", "environ": env, "other": ref, "to_application": to_app}))
+    bad = ctx.corr("relative_url", IMPORTS, "(fun c => obs_rel (fst c) (snd c))", cases,
+                   in_type="(list str * (environ * str * bool))")
+    _report_bad(ctx, "relative_url", bad, cases, None)
+    # the Gallina RFC 3986 specification against the independent Python transcription (strict reading)
+    cases = []
+    for _ in range(ctx.scale(600, 6000)):
+        base = rng.choice(JOIN_BASES) if rng.random() < 0.6 else gen_url_wellformed(rng)
+        ref = gen_ref(rng)
+        cases.append(("(%s, %s)" % (cstr(base), cstr(ref)), ref_resolve(base, ref, strict=True),
+                      {"kind": "rfc3986", "base": base, "ref": ref}))
+    bad = ctx.corr("rfc3986-spec", IMPORTS, "(fun c => VStr (rfc3986_resolve (fst c) (snd c)))", cases,
+                   in_type="(str * str)")
+    for i in bad[:5]:
+        ctx.broken.append("the Gallina RFC 3986 resolver and the Python transcription disagree on %s (python: %r)"
+                          % (json.dumps(cases[i][2]), cases[i][1]))
+
+
+
 # ============================================================================ the check
 def guarded(oracle):
     """An exception escaping an oracle is the implementation raising where the statement expects a value."""
@@ -1254,13 +1368,17 @@ MODELLED = [
     "urllib.parse:quote", "urllib.parse:quote_from_bytes",
     "urllib.parse:urlsplit", "urllib.parse:_splitnetloc", "urllib.parse:scheme_chars",
     "urllib.parse:_WHATWG_C0_CONTROL_OR_SPACE", "urllib.parse:_UNSAFE_URL_BYTES_TO_REMOVE",
+    # Model/C13_urljoin.v
+    "webob.request:BaseRequest.relative_url", "urllib.parse:urljoin", "urllib.parse:urlparse",
+    "urllib.parse:_splitparams", "urllib.parse:urlunparse", "urllib.parse:urlunsplit",
 ]
 # translated into coq/Gen/C13_tables.v by gen(ctx) on every run
-REGENERATED = ["webob.request:PATH_SAFE", "urllib.parse:_ALWAYS_SAFE", "webob.descriptors:SCHEME_RE"]
+REGENERATED = ["webob.request:PATH_SAFE", "urllib.parse:_ALWAYS_SAFE", "webob.descriptors:SCHEME_RE",
+               "urllib.parse:uses_relative", "urllib.parse:uses_netloc", "urllib.parse:uses_params"]
 # exercised by the oracle only (no Gallina counterpart); _check_bracketed_host is the abstract predicate v6ok whose
 # recorded answers are fed to the model
 ORACLE_ONLY = [
-    "webob.request:BaseRequest.relative_url", "urllib.parse:urljoin", "webob.request:BaseRequest.blank",
+    "webob.request:BaseRequest.blank",
     "webob.request:BaseRequest.uscript_name", "webob.request:BaseRequest.upath_info",
     "webob.request:BaseRequest.host", "webob.request:BaseRequest.scheme", "webob.request:BaseRequest.query_string",
     "webob.request:AdhocAttrMixin.__setattr__", "urllib.parse:_check_bracketed_host", "urllib.parse:_checknetloc",
@@ -1359,6 +1477,8 @@ def run(ctx):
             cases.append((cenv(e), got, {"kind": "env", "environ": e, "from_history": hist, "step": k}))
     bad = ctx.corr("urls-history", IMPORTS, "obs_urls", cases, in_type="environ")
     _report_bad(ctx, "urls-history", bad, cases, lambda c: oracle_history(c["from_history"]))
+
+    corr_urljoin(ctx, ctx.sub_rng("corr-urljoin"))
 
     # urlsplit and environ_from_url on URL texts
     for name, impl, fn in (("urlsplit", impl_split, "obs_split"), ("environ_from_url", impl_blank, "obs_blank")):
